@@ -28,6 +28,7 @@ type host struct {
 	fund   *types.SiacoinElement  // a genuine spendable element (for the carrier that holds one valid v2 transaction)
 	post   *host                  // the same accumulator in a state after RequireHeight (synthetic forests)
 	firsts map[[33]byte]*firstUse // honest first uses in the block, per element (second-use family)
+	cmp    *companions            // genuine elements that accompany a probe in a multi-element transaction
 	tr     *truth                 // what the history really holds: the source of the genuine copy in placement probes
 	// a genuine live v2 contract per proof height (parents for storage proofs that carry a probed chain index)
 	proofParents map[uint64]*[2]*types.V2FileContractElement // [0]: contract with a non-empty file, [1]: with an empty file
@@ -904,6 +905,21 @@ func judge(c *vlib.Ctx, st *stats, h *host, p probe, o judgeOpts) {
 		st.mu.Unlock()
 		if got != p.exp || pan != nil {
 			report("vte", role, got, pan, "")
+		}
+		// the probe as one of several parents of the transaction (every genuine probe, a sample of the others)
+		if p.exp || fp%4 == 2 && !o.lean || fp%16 == 2 {
+			for _, mc := range h.multiTxns(p.e, role) {
+				got, pan := h.askVTEMulti(mc.txn)
+				st.mu.Lock()
+				st.noteP(&p, "vte-multi", mc.name, got)
+				if got == p.exp && !got && p.tpath != "" {
+					st.field("vte-multi", k, p.tpath)
+				}
+				st.mu.Unlock()
+				if got != p.exp || pan != nil {
+					report("vte-multi", mc.name, got, pan, " (all other parents of the transaction are genuine)")
+				}
+			}
 		}
 		if o.v2txn && h.v2ok {
 			h.judgeV2Txn(c, st, p, role, report)
